@@ -532,7 +532,7 @@ def r7_firefly(ctx):
             label = "fireflies with objective ranks %s" % (list(order),)
             paths = it.run()
             if len(paths) != 1:
-                bad.append((label, "is not decided (%d paths: %s)" % (len(paths), sorted({p.end for p in paths}))))
+                bad.append((label, "is not decided (%d paths: %s%s)" % (len(paths), sorted({p.end for p in paths}), "".join("; panics at %s" % [e.data for e in p_.events if e.kind == "panic"][:2] for p_ in paths if p_.end == "panic")[:300])))
                 continue
             p = paths[0]
             if p.end != "return" or not (isinstance(p.ret, Agg) and p.ret.variant == "Ok"):
